@@ -591,4 +591,6 @@ func runC12(r *an.Run) {
 				}
 			}
 		})
+
+	failBackSites(r)
 }
